@@ -269,7 +269,13 @@ LINEAR_CALLS = {"einsum", "cross3", "outer", "ax2skew", "hstack", "vstack", "con
 DERIV_NAME = re.compile(r"(_q|_u|_q1_q2)$|^(W_|Wla_)")
 
 
-def occurrences(info: FnInfo, fn, tagged_only=None):
+class ViaName(str):
+    """name of an occurrence reached THROUGH a tuple-returning helper of the same class (n_q1, n_q2 = self.n_q1_q2(t, q)): `via` names the
+    helper chain.  Such occurrences form their own polarity group: the helper's outputs already carry the sign of their body."""
+    via = ""
+
+
+def occurrences(info: FnInfo, fn, tagged_only=None, helpers=None, roots=None, _depth=0):
     """[(family, body, sign, stmt, name)] for the occurrences of body-indexed kinematic names in the statements that build the
     routine's result (subscript stores, augmented stores, return values); locals are inlined through their single
     definition with the sign of the path.  In derivative routines only the *differentiated* factors count, i.e. names that
@@ -289,6 +295,20 @@ def occurrences(info: FnInfo, fn, tagged_only=None):
                 scalar_locals.add(n.targets[0].id)
         elif isinstance(n, ast.AugAssign) and isinstance(n.target, ast.Name):
             defs.setdefault(n.target.id, []).extend([None, None])  # accumulated local: not inlined
+    tdefs = {}
+    if helpers and _depth < 3:
+        for n in walk_no_nested(fn):
+            if isinstance(n, ast.Assign) and len(n.targets) == 1 and isinstance(n.targets[0], ast.Tuple) and isinstance(n.value, ast.Call) \
+                    and isinstance(n.value.func, ast.Attribute) and isinstance(n.value.func.value, ast.Name) and n.value.func.value.id == info.sn:
+                h = helpers.get(n.value.func.attr)
+                if h is None or h is fn:
+                    continue
+                rets = [r for r in walk_no_nested(h) if isinstance(r, ast.Return)]
+                if len(rets) != 1 or not isinstance(rets[0].value, ast.Tuple) or len(rets[0].value.elts) != len(n.targets[0].elts):
+                    continue
+                for k, a in enumerate(n.targets[0].elts):
+                    if isinstance(a, ast.Name):
+                        tdefs.setdefault(a.id, []).append((h, rets[0].value.elts[k], n.value.func.attr))
 
     def unknown_scalar(e):
         return isinstance(e, ast.Name) and e.id in scalar_locals
@@ -346,10 +366,20 @@ def occurrences(info: FnInfo, fn, tagged_only=None):
             d = defs.get(e.id)
             if d and len(d) == 1 and d[0] is not None:
                 rec(d[0], sign, stmt, depth + 1)
+            elif e.id in tdefs and len(tdefs[e.id]) == 1 and e.id not in defs:
+                h, elt, hname = tdefs[e.id][0]
+                for (f_, b_, sg_, _st, nm_) in occurrences(FnInfo(h, info.sn), h, tagged_only=True, helpers=helpers, roots=[elt], _depth=_depth + 1):
+                    v = ViaName(nm_)
+                    v.via = hname + ("/" + nm_.via if getattr(nm_, "via", "") else "")
+                    out.append((f_, b_, sign * sg_, stmt, v))
         elif isinstance(e, (ast.List, ast.Tuple)):
             for x in e.elts:
                 rec(x, sign, stmt, depth)
 
+    if roots is not None:
+        for r_ in roots:
+            rec(r_, 1, r_)
+        return out
     for n in walk_no_nested(fn):
         if isinstance(n, ast.Assign) and len(n.targets) == 1 and isinstance(n.targets[0], ast.Subscript):
             rec(n.value, 1, n)
@@ -360,14 +390,16 @@ def occurrences(info: FnInfo, fn, tagged_only=None):
     return out
 
 
-def relative_polarity(info, fn):
+def relative_polarity(info, fn, helpers=None):
     """{(family, tag kind): rho} with rho = sign(body 2)/sign(body 1) when both are determinate in fn (all occurrences of that
     kind agree).  Tag kind = which derivative tags the name carries ('', 'q', 'u', 'qu'): a second-derivative routine mixes
     d(J)/dq terms and J * d(n)/dq terms, whose signs are judged separately."""
-    occ = occurrences(info, fn)
+    occ = occurrences(info, fn, helpers=helpers)
     groups = {}
     for (f, b, sg, st, nm) in occ:
         kinds = "".join(sorted({k for (k, _) in name_tags(nm)}))
+        if getattr(nm, "via", ""):
+            kinds += " via " + nm.via
         groups.setdefault((f, kinds), {1: set(), 2: set()})[b].add(sg)
     res = {}
     for key, s in groups.items():
@@ -378,7 +410,7 @@ def relative_polarity(info, fn):
     return res, occ
 
 
-def check_polarity(rep, rule, ci, methods, rel=None, families=("P", "R")):
+def check_polarity(rep, rule, ci, methods, rel=None, families=("P", "R"), helpers=None):
     """all methods of one derivative family in which the body-2 : body-1 sign ratio is syntactically determinate agree."""
     rel = rel or ci.rel
     seen = {}
@@ -387,7 +419,7 @@ def check_polarity(rep, rule, ci, methods, rel=None, families=("P", "R")):
         if fn is None:
             continue
         info = FnInfo(fn)
-        res, occ = relative_polarity(info, fn)
+        res, occ = relative_polarity(info, fn, helpers=helpers)
         for (fam, kinds), rho in res.items():
             if rho in (None, 0) or fam not in families:
                 continue
